@@ -572,10 +572,33 @@ def run(ctx):
     chunk = 1000
     done = 0
     import time as _time
-    _t0 = _time.time()
-    _budget = float(os.environ.get('VERIF_THOROUGH_BUDGET_S', '1500'))    # wall-clock budget of the random stream (thorough tier)
-    while done < n:
-        if not quick and _time.time() - _t0 > _budget:
+    # wall-clock budget of the whole check (thorough tier), counted from its start (Coq build and coqchk
+    # included); the complete parts run first, the random stream takes what is left
+    _budget = float(os.environ.get('VERIF_THOROUGH_BUDGET_S', '1500'))
+    _left = lambda: _budget - (_time.time() - ctx.t0)
+
+    def feed_exhaustive():
+        ex = exhaustive_cases(base, 3 if quick else 4)
+        fed = 0
+        for i in range(0, len(ex), 2000):
+            if not quick and _left() < 0:
+                break
+            d.feed(ex[i:i + 2000])
+            fed += len(ex[i:i + 2000])
+        ctx.cov['exhaustive'] = ('%s %d admissible sequences of <= %d operations over {a0,a1,a2,A1,d0,d1,d2,c} x stack words {none, 0, all} '
+                                 'x 2 address patterns x 4 destructor behaviours (none, deleting, allocating, temporaries)'
+                                 % ('all' if fed == len(ex) else 'INCOMPLETE (wall-clock budget): %d of' % fed, len(ex), 3 if quick else 4))
+
+    if not quick:
+        feed_exhaustive()
+        if not d.oracle_fail and _left() > 300:
+            # past 1259 and 2417 slots and back; slot arrays compared by hash (brief dumps)
+            d.feed([gen_grow(ctx.rng, nbig, base, brief=True) for nbig in (1200, 1500)])
+            ctx.cov['growth_to_2417_slots'] = 'done (2 cases)'
+        else:
+            ctx.cov['growth_to_2417_slots'] = 'skipped (wall-clock budget)'
+    while done < n and not d.oracle_fail:
+        if not quick and _left() < 0:
             ctx.notes.append('random stream stopped after %d of %d cases: wall-clock budget of %.0f s (VERIF_THOROUGH_BUDGET_S) used up' % (done, n, _budget))
             break
         m = min(chunk, n - done)
@@ -599,17 +622,9 @@ def run(ctx):
                 cases.append(gen_case(ctx.rng, 150, nmax if j % 7 else 20, base))
         d.feed(cases)
         done += m
-        if d.oracle_fail:
-            break
-    if not quick and not d.oracle_fail:
-        # past 1259 and 2417 slots and back; slot arrays compared by hash (brief dumps)
-        d.feed([gen_grow(ctx.rng, nbig, base, brief=True) for nbig in (1200, 1500)])
-    if not d.oracle_fail:
-        ex = exhaustive_cases(base, 3 if quick else 4)
-        for i in range(0, len(ex), 2000):
-            d.feed(ex[i:i + 2000])
-        ctx.cov['exhaustive'] = ('all %d admissible sequences of <= %d operations over {a0,a1,a2,A1,d0,d1,d2,c} x stack words {none, 0, all} '
-                                 'x 2 address patterns x 4 destructor behaviours (none, deleting, allocating, temporaries)' % (len(ex), 3 if quick else 4))
+    ctx.cov['random_stream'] = '%d of %d planned cases' % (done, n)
+    if quick and not d.oracle_fail:
+        feed_exhaustive()
 
     def extra(dd):
         dd.feed([gen_case(ctx.rng, 60, 20, base) for _ in range(10 * min(n, 2000))])
